@@ -181,7 +181,9 @@ class ChangeScenario(Scenario):
         async def parent(**kw: Any) -> Any:
             for s in subs:
                 sfn = scripted(env, f"{hid}/{s['id']}", parse_script(s.get('script', ['ok'])))
-                opts = {k: v for k, v in s.items() if k not in ('id', 'script')}
+                if s.get('subs'):      # sub-handlers nest to any depth
+                    sfn = self._with_subs(env, f"{hid}/{s['id']}", sfn, s['subs'])
+                opts = {k: v for k, v in s.items() if k not in ('id', 'script', 'subs')}
                 if isinstance(opts.get('errors'), str):
                     opts['errors'] = getattr(kopf.ErrorsMode, opts['errors'])
                 kopf.subhandler(id=s['id'], **opts)(sfn)
@@ -209,7 +211,7 @@ class ChangeScenario(Scenario):
 
     def setup(self, env: Env) -> None:
         for name, spec in self.params.get('pre', []):
-            env.world.create(self.kind, 'ns', name, {'spec': spec})
+            env.world.create(self.kind, 'ns', name, {'spec': spec} if spec is not None else {})
         if self.params.get('autostart', True):
             self.start_operator(env)
 
@@ -352,9 +354,20 @@ class ChangeScenario(Scenario):
     # -- helpers for oracles --
     def handler_ids(self) -> list[str]:
         ids = [h['id'] for h in self.params['handlers']]
-        for parent, subs in self.params.get('subs', {}).items():
-            ids += [f"{parent}/{s['id']}" for s in subs]
+        for parent in self.params.get('subs', {}):
+            ids += self.descendants(parent)
         return ids
+
+    def descendants(self, hid: str) -> list[str]:
+        """Ids of all sub-handlers below a top-level handler (any depth)."""
+        def walk(prefix: str, subs: list[dict]) -> list[str]:
+            out: list[str] = []
+            for s in subs:
+                out.append(f"{prefix}/{s['id']}")
+                out += walk(f"{prefix}/{s['id']}", s.get('subs', []))
+            return out
+        top = hid.split('/')[0]
+        return [i for i in walk(top, self.params.get('subs', {}).get(top, [])) if i.startswith(hid + '/')]
 
     def op_writes(self, env: Env, name: str | None = None) -> list[dict]:
         return [w for w in env.world.writes if w['actor'].startswith('op:') and (name is None or w['name'] == name)]
